@@ -375,10 +375,19 @@ def check_story(p, out, Rt):
             else:
                 cols = [np.concatenate([T[0]["x"], T[0]["y"]])] if T else [np.concatenate(Rt.to_internal(x0_array(p), y0_array(p)))]
                 dts = []
+                last_newton_dt = {}
+                for (ti, ndt, _) in tr.newton_calls:
+                    last_newton_dt[ti] = ndt
                 for i, t in enumerate(T):
                     if eff[i]:
                         cols.append(np.concatenate([t["xn"], t["yn"]]))
-                        dts.append(t["dt"])
+                        # step size used = the one the Newton method that produced the accepted iterate was set
+                        # up with (equals the one handed to the step controller unless something in between
+                        # changes it)
+                        used = last_newton_dt.get(i, t["dt"])
+                        if used != t["dt"]:
+                            stats["newton_dt_differs"] = stats.get("newton_dt_differs", 0) + 1
+                        dts.append(used)
                 for j, c in enumerate(cols):
                     if not np.array_equal(path[:, j], c):
                         bad("path-column", "path column %d is not the %d-th accepted point" % (j, j))
